@@ -42,6 +42,7 @@ from unified_planning.model import (
     MaximizeExpressionOnFinalState, Oversubscription,
 )
 from unified_planning.model.contingent import ContingentProblem
+from unified_planning.model.htn import HierarchicalProblem, Method, Task
 from unified_planning.plans import ActionInstance
 from unified_planning.exceptions import UPConflictingEffectsException
 
@@ -72,7 +73,7 @@ class Replica:
         idf = {}
         for t, v in (initial_defaults or []):
             idf[W.type(t)] = pyconst(W, v)
-        cls = ContingentProblem if kind == "contingent" else Problem
+        cls = {"contingent": ContingentProblem, "hierarchical": HierarchicalProblem}.get(kind, Problem)
         self.p = cls(name, W.env, initial_defaults=idf)
 
     @classmethod
@@ -341,7 +342,64 @@ def _apply(W, R, p, k, op):
     if k == "action_instance":
         a = find_action(p, op["action"])
         return ActionInstance(a, [pyconst(W, v) for v in op["params"]])
+    if k in ("add_task", "add_method", "method_add_pre", "method_add_subtask", "tn_add_subtask", "tn_set_ordered"):
+        if not isinstance(p, HierarchicalProblem):
+            raise BuildError("not a hierarchical problem")
+        return _apply_htn(W, p, k, op)
     raise BuildError(f"unknown op {k}")
+
+
+def _task_or_action(p, name):
+    if p.has_task(name):
+        return p.get_task(name)
+    if p.has_action(name):
+        return p.action(name)
+    raise BuildError(f"no task or action {name}")
+
+
+def _apply_htn(W, p, k, op):
+    if k == "add_task":
+        p.add_task(op["name"], **OrderedDict((pn, W.type(pt)) for pn, pt in op.get("params", [])))
+        return None
+    if k == "add_method":
+        md = op["method"]
+        if not p.has_task(md["task"]):
+            raise BuildError(md["task"])
+        m = Method(md["name"], OrderedDict((pn, W.type(pt)) for pn, pt in md.get("params", [])), W.env)
+        task = p.get_task(md["task"])
+        m.set_task(task, *[m.parameter(a) for a in md.get("task_args", [])])
+        scope = {q.name: q for q in m.parameters}
+        for pre in md.get("pre", []):
+            m.add_precondition(W.expr(pre, scope))
+        for st in md.get("subtasks", []):
+            m.add_subtask(_task_or_action(p, st["what"]), *[W.expr(a, scope) for a in st.get("args", [])], ident=st["ident"])
+        p.add_method(m)
+        return None
+    if k == "method_add_pre":
+        if op["method"] not in [m.name for m in p.methods]:
+            raise BuildError(op["method"])
+        m = p.method(op["method"])
+        m.add_precondition(W.expr(op["pre"], {q.name: q for q in m.parameters}))
+        return None
+    if k == "method_add_subtask":
+        if op["method"] not in [m.name for m in p.methods]:
+            raise BuildError(op["method"])
+        m = p.method(op["method"])
+        st = op["subtask"]
+        m.add_subtask(_task_or_action(p, st["what"]), *[W.expr(a, {q.name: q for q in m.parameters}) for a in st.get("args", [])],
+                      ident=st["ident"])
+        return None
+    if k == "tn_add_subtask":
+        st = op["subtask"]
+        p.task_network.add_subtask(_task_or_action(p, st["what"]), *[W.expr(a) for a in st.get("args", [])], ident=st["ident"])
+        return None
+    if k == "tn_set_ordered":
+        subs = [s_ for s_ in p.task_network.subtasks if s_.identifier in op["idents"]]
+        if len(subs) < 2:
+            raise BuildError("not enough subtasks")
+        p.task_network.set_ordered(*subs)
+        return None
+    raise BuildError(k)
 
 
 # ---------------------------------------------------------------- snapshots / invariants
@@ -383,6 +441,10 @@ def snapshot(p):
         "traj": [str(c) for c in p.trajectory_constraints],
         "metrics": [str(m) for m in p.quality_metrics],
     }
+    if isinstance(p, HierarchicalProblem):
+        s["tasks"] = sorted(str(t) for t in p.tasks)
+        s["methods"] = sorted(repr(m) for m in p.methods)
+        s["tn"] = [repr(st) for st in p.task_network.subtasks] + [str(c) for c in p.task_network.constraints]
     if isinstance(p, ContingentProblem):
         s["or"] = [[str(f) for f in c] for c in p.or_constraints]
         s["oneof"] = [[str(f) for f in c] for c in p.oneof_constraints]
@@ -532,6 +594,8 @@ class ModelHist(Engine):
     def profiles(self, tier):
         if self.prop == "C24":
             return ["perm"]
+        if self.prop == "C22":
+            return ["classical", "temporal", "contingent", "hierarchical", "classical", "hierarchical"]
         return ["classical", "temporal", "contingent", "classical"]
 
     # ----------------------------------------------------------------- vocabulary
@@ -635,7 +699,8 @@ class ModelHist(Engine):
         tmap = dict(world["types"])
         objs = world["objects"]
         fl_all = world["fluents"]
-        kind = "contingent" if profile == "contingent" else "problem"
+        kind = {"contingent": "contingent", "hierarchical": "hierarchical"}.get(profile, "problem")
+        tasks, methods, tn_idents, n_ident = {}, {}, [], 0
         init_defaults = []
         if rw.random() < 0.4:
             init_defaults.append([["bool"], ["bool", False]])
@@ -849,6 +914,77 @@ class ModelHist(Engine):
                     op["params"] = [self.wrong_value(ro, ad["params"][0][1], objs, tmap)[0]]
                     op["faulty"], op["why"] = "value", "incompatible action-instance parameter"
                 ops.append(op)
+            elif kind == "hierarchical" and ro.random() < 0.9:
+                tn = [t_ for t_, _ in world["types"]]
+                x = ro.random()
+                if x < 0.2 or not tasks:
+                    name = f"t{len(tasks) + 1}"
+                    params = [["x", ["user", ro.choice(tn)]]] if ro.random() < 0.5 else []
+                    op = {"op": "add_task", "name": name, "params": params}
+                    if faulty and tasks:
+                        op["name"], op["faulty"] = ro.choice(sorted(tasks)), "duplicate"
+                    else:
+                        tasks[name] = params
+                    ops.append(op)
+                    continue
+                n_ident += 1
+
+                def subtask(param_names):
+                    cands = [(n_, ps_) for n_, ps_ in tasks.items()] + \
+                            [(n_, ad_["params"]) for n_, ad_ in actions.items() if not ad_.get("durative")]
+                    what, ps_ = ro.choice(cands)
+                    args = []
+                    for _, pt in ps_:
+                        mine = [pn for pn, ptt in param_names if subtype_of(tmap, ptt[1], pt[1])]
+                        objs_ = [o for o, ot in objs if o in added_obj and subtype_of(tmap, ot, pt[1])]
+                        if mine and ro.random() < 0.6:
+                            args.append(["p", ro.choice(mine)])
+                        elif objs_:
+                            args.append(["o", ro.choice(objs_)])
+                        else:
+                            return None
+                    return {"what": what, "args": args, "ident": f"st{n_ident}"}
+
+                if x < 0.45:
+                    tname = ro.choice(sorted(tasks))
+                    mparams = [[f"q{j}", pt] for j, (_, pt) in enumerate(tasks[tname])]
+                    if ro.random() < 0.4:
+                        mparams.append(["extra", ["user", ro.choice(tn)]])
+                    name = f"m{len(methods) + 1}"
+                    g.params = [(n_, t_) for n_, t_ in mparams]
+                    md = {"name": name, "params": mparams, "task": tname, "task_args": [q for q, _ in mparams[:len(tasks[tname])]],
+                          "pre": [g.bool_expr(1)] if ro.random() < 0.5 else [], "subtasks": []}
+                    g.params = []
+                    st = subtask(mparams)
+                    if st:
+                        md["subtasks"].append(st)
+                    op = {"op": "add_method", "method": md}
+                    if faulty and methods:
+                        md["name"], op["faulty"] = ro.choice(sorted(methods)), "duplicate"
+                    else:
+                        methods[name] = mparams
+                    ops.append(op)
+                elif x < 0.6 and methods:
+                    mn = ro.choice(sorted(methods))
+                    g.params = [(n_, t_) for n_, t_ in methods[mn]]
+                    ops.append({"op": "method_add_pre", "method": mn, "pre": g.bool_expr(1)})
+                    g.params = []
+                elif x < 0.72 and methods:
+                    mn = ro.choice(sorted(methods))
+                    st = subtask(methods[mn])
+                    if st:
+                        ops.append({"op": "method_add_subtask", "method": mn, "subtask": st})
+                elif x < 0.92:
+                    st = subtask([])
+                    if st:
+                        op = {"op": "tn_add_subtask", "subtask": st}
+                        if faulty and tn_idents:
+                            st["ident"], op["faulty"] = ro.choice(tn_idents), "duplicate"
+                        else:
+                            tn_idents.append(st["ident"])
+                        ops.append(op)
+                elif len(tn_idents) >= 2:
+                    ops.append({"op": "tn_set_ordered", "idents": ro.sample(tn_idents, 2)})
             elif kind == "contingent" and usable:
                 bf = [f for f in usable if f["type"][0] == "bool" and not f["params"]]
                 if not bf:
